@@ -4,9 +4,10 @@
      ListProds      __init__ / complete_init / gen_productions /
                     transform_t_elem / _parse_tail_t_elem      (llparser.py:872-1124)
      MapProds       the same five + _parse_kv_pair              (llparser.py:1127-1344)
-     ProdSequence   gen_productions                             (llparser.py:809-869)
-     LLParser._process_seq_telement (in-parse flattening)       (llparser.py:1984-2011)
-     StdCleanuper._make_squash_data / _cleanup                  (llparser.py:2445-2561)
+     ProdSequence   gen_productions                             (llparser.py:851-869)
+     LLParser._process_seq_telement (in-parse flattening)       (llparser.py:1987-2014)
+     StdCleanuper.make / _make_squash_data / _cleanup           (llparser.py:2453-2585)
+   (line numbers of /repo HEAD 3e213c0)
 
    Symbols are their names ([sym] = list of code points, LLP/Base.v).
    [rt] is a TElement tree as LLParser.parse(..., do_cleanup=False) returns it,
